@@ -10,7 +10,7 @@ type c02Op struct {
 	id        int // handler id (subscribe/unsubscribe) or event value (publish)
 	once      bool
 	reject    bool // filter rejecting every event
-	odd       bool // filter accepting only odd event values
+	odd       bool // filter accepting only event values of the handler identity's parity
 	call, ret int
 	ok        bool // unsubscribe returned nil
 }
@@ -47,7 +47,10 @@ func c02Run(bus *EventBus, o *c02Op) {
 			so = append(so, WithFilter(func(e evA) bool { return false }))
 		}
 		if o.odd {
-			so = append(so, WithFilter(func(e evA) bool { return e.N%2 == 1 }))
+			// one func literal, different captured parity per handler identity: handler 1 takes odd
+			// values, handler 0 even ones (closures of one literal share their code pointer)
+			par := o.id % 2
+			so = append(so, WithFilter(func(e evA) bool { return e.N%2 == par }))
 		}
 		Subscribe(bus, c01HA[o.id], so...)
 	case 1:
@@ -84,7 +87,7 @@ func c02Oracle(bus *EventBus, ops []*c02Op) {
 			}
 			g := got(r.id, p.id)
 			total += g
-			acc := !r.reject && (!r.odd || p.id%2 == 1)
+			acc := !r.reject && (!r.odd || p.id%2 == r.id%2)
 			must := r.ret < p.call && acc
 			mustNot := r.call > p.ret || !acc
 			for _, x := range ops {
